@@ -249,8 +249,144 @@ def run_graph(ops):
     return len(keys), n_unlock, vs, ops
 
 
+# ---------------------------------------------------------------- the same through the command line
+def cli_case(_):
+    """init / add-key --shared / --clone / independent / snapshot / ls / delete / restore through the real
+    replicat.__main__.main() and the real command handler, local backend, one process image per command."""
+    import contextlib
+    import importlib
+    import io
+    import os
+    import shutil
+    from mc import dsched
+    import datetime as _dt
+    dsched.uninstall(R)          # this worker process runs the commands on real threads and a real event loop
+    R.datetime = _dt.datetime
+    W.set_random('cli', real=True)
+    fsdirs = H.materialize()
+    sc = H.worker_scratch()
+    root = sc.sub()
+    repo = root / 'repo'
+    repo.mkdir()
+    vs = []
+    sig0 = {'part': 'cli'}
+
+    def bad(what, **kw):
+        vs.append((dict(sig0, what=what), dict(kw)))
+
+    def run(*argv):
+        import replicat.utils as _ru
+        for m in ('replicat.__main__', 'replicat.utils.cli', 'replicat.utils.config'):
+            sys.modules.pop(m, None)
+        for attr in ('cli', 'config'):
+            if hasattr(_ru, attr):
+                delattr(_ru, attr)
+        old_argv, old_env = sys.argv, dict(os.environ)
+        for k in list(os.environ):
+            if k.startswith(('REPLICAT_', 'LOCAL_')):
+                del os.environ[k]
+        sys.argv = ['replicat'] + [str(a) for a in argv] + ['--ignore-config', '-q', '--no-cache', '-r', str(repo)]
+        out, err = io.StringIO(), io.StringIO()
+        rc = 0
+        try:
+            with contextlib.redirect_stdout(out), contextlib.redirect_stderr(err):
+                import logging
+                rl = logging.getLogger()
+                handlers = list(rl.handlers)
+                try:
+                    importlib.import_module('replicat.__main__').main()
+                except SystemExit as e:
+                    rc = e.code if isinstance(e.code, int) else 1
+                except Exception as e:
+                    rc = ('exc', type(e).__name__, str(e)[:120])
+                finally:
+                    for h_ in list(rl.handlers):
+                        if h_ not in handlers:
+                            rl.removeHandler(h_)
+                    logging.getLogger('backoff').handlers.clear()
+        finally:
+            sys.argv = old_argv
+            os.environ.clear()
+            os.environ.update(old_env)
+        return rc, out.getvalue(), err.getvalue()
+
+    def chunks():
+        return {str(p.relative_to(repo)) for p in (repo / 'data').rglob('*') if p.is_file()} if (repo / 'data').exists() else set()
+
+    kdf = ['--encryption.kdf.n', '4', '--encryption.kdf.r', '1']
+    rc, o, e = run('init', '-p', 'pw-A', '-o', root / 'kA', '--chunking.min-length', '8', '--chunking.max-length', '8',
+                   '--hashing.length', '20', *kdf)
+    if rc != 0:
+        bad('cli-init-failed', rc=repr(rc), err=e[-200:])
+        return 1, vs
+    steps = [
+        ('shared', ['add-key', '-p', 'pw-A', '-K', root / 'kA', '--shared', '-n', 'pw-B', '-o', root / 'kB', *kdf]),
+        ('clone', ['add-key', '-p', 'pw-A', '-K', root / 'kA', '--clone', '-o', root / 'kA2', *kdf]),
+        ('independent', ['add-key', '-n', 'pw-C', '-o', root / 'kC', *kdf]),
+    ]
+    for label, argv in steps:
+        rc, o, e = run(*argv)
+        if rc != 0:
+            bad('cli-add-key-failed', kind=label, rc=repr(rc), err=e[-200:])
+    holders = {'A': ('pw-A', 'kA', 'fam1'), 'B': ('pw-B', 'kB', 'fam1'), 'A2': ('pw-A', 'kA2', 'fam1'), 'C': ('pw-C', 'kC', 'fam2')}
+    names = {}
+    n = 4
+    for who in ('A', 'B', 'A2', 'C'):
+        pw, kf, fam = holders[who]
+        before = chunks()
+        rc, o, e = run('snapshot', fsdirs['F2'], '-p', pw, '-K', root / kf)
+        n += 1
+        if rc != 0:
+            bad('cli-snapshot-failed', who=who, rc=repr(rc), err=e[-200:])
+            continue
+        new = chunks() - before
+        if who in ('B', 'A2') and new:
+            bad('shared-or-cloned-key-does-not-reuse-chunks', who=who, new_chunk_objects=len(new))
+        if who == 'C' and not new:
+            bad('independent-key-aliases-chunks')
+        rc, o, e = run('ls', '-p', pw, '-K', root / kf, '--no-header', '--columns', 'name,file_count')
+        rows = [tuple(c.strip() for c in line.split('\t')) for line in o.splitlines() if line.strip()]
+        names[who] = rows
+    # visibility: family members see each other's names without details; the independent holder sees only its own
+    if all(w in names for w in holders):
+        fam1 = {r[0] for r in names['A2']}
+        if len(fam1) != 3 or {r[0] for r in names['A']} - fam1:
+            bad('cli-family-listing', rows=names['A2'])
+        if sum(1 for r in names['A2'] if r[1] != '--') != 1:
+            bad('cli-foreign-details-visible-or-own-hidden', rows=names['A2'])
+        if len(names['C']) != 1:
+            bad('cli-independent-holder-sees-others', rows=names['C'])
+        # B tries to delete A's snapshot
+        a_name = [r[0] for r in names['A'] if r[1] != '--']
+        if a_name:
+            before = {str(p.relative_to(repo)) for p in repo.rglob('*') if p.is_file()}
+            rc, o, e = run('delete', a_name[0], '-y', '-p', 'pw-B', '-K', root / 'kB')
+            n += 1
+            after = {str(p.relative_to(repo)) for p in repo.rglob('*') if p.is_file()}
+            if rc == 0 or before != after:
+                bad('cli-foreign-delete-not-refused', rc=repr(rc), removed=len(before - after))
+        # wrong password / wrong key on the command line
+        for pw, kf in (('pw-B', 'kA'), ('pw-A', 'kB'), ('pw-x', 'kC')):
+            rc, o, e = run('ls', '-p', pw, '-K', root / kf)
+            n += 1
+            if rc == 0:
+                bad('cli-wrong-credentials-accepted', password=pw, key=kf)
+        # restore as A
+        rc, o, e = run('restore', root / 'out', '-p', 'pw-A', '-K', root / 'kA')
+        n += 1
+        want = {W.restore_path(root / 'out', p): d for p, d in H.expected_files({'fsid': 'F2'}, fsdirs).items()}
+        got = {p: v[0] for p, v in W.read_tree(root / 'out').items()}
+        if rc != 0 or got != want:
+            bad('cli-restore-wrong', rc=repr(rc), got=sorted(got))
+    shutil.rmtree(root, ignore_errors=True)
+    return n, vs
+
+
 def replay(case):
     fsdirs = H.materialize()
+    if not case or ('ops' not in case and 'hist' not in case):
+        n, vs = cli_case(0)
+        return {'violations': [v[0] for v in vs]}
     if 'ops' in case:
         _, _, vs, _ = run_graph([tuple(o) for o in case['ops']])
         return {'violations': [v[0] for v in vs]}
@@ -276,6 +412,10 @@ def main():
             for sig, detail in vs:
                 chk.violation(sig, detail)
         chk.sample({'key_graph_ops(parent,type,kdf)': gs[0]})
+        (ncli, vcli), = list(common.pmap(cli_case, [0], procs=1, force=True))
+        for sig, detail in vcli:
+            chk.violation(sig, detail)
+        chk.sample({'cli': 'init, add-key --shared/--clone/independent, snapshot x4, ls x4, foreign delete, wrong credentials, restore'})
         s0 = list(common.pmap(H.make_initial, ['enc'], procs=1, force=True))[0]
         depth = 3 if t == 'quick' else 4
         stats, viol = H.bfs([s0], expand, depth, label='c06')
@@ -289,7 +429,7 @@ def main():
             'evaluations': stats['transitions'] + nunlock, 'distinct_nontrivial': stats['states'] + len(gs),
             'rule': 'all add-key chains up to the depth bound x KDF settings with the full unlock matrix and all-pairs views; '
                     'BFS over histories with every user also acting against every other user\'s snapshots',
-            'key_graphs': len(gs), 'keys_generated': nkeys, 'unlock_attempts': nunlock, 'bfs': stats,
+            'key_graphs': len(gs), 'keys_generated': nkeys, 'unlock_attempts': nunlock, 'bfs': stats, 'cli_commands': ncli,
         })
         chk.assumptions += ['a clone is modelled as a shared key (same password, new salt): that is what the code and README do',
                             'scrypt n in {2,4}, r in {1,8}']
